@@ -282,6 +282,7 @@ type svcOp struct {
 	Res   []string   `json:"res,omitempty"`
 	Acc   []string   `json:"acc,omitempty"`
 	RName string     `json:"rname,omitempty"`
+	Q     string     `json:"q,omitempty"`
 	Ev    script.Act `json:"ev,omitempty"`
 }
 
@@ -311,6 +312,8 @@ func TestPropServiceLevel(t *testing.T) {
 				}
 				o.RName = "svc." + strings.Join(toks, ".")
 				o.Ev = genEventAct(t)
+				// the resource id given to With may carry a query; events go to the resource name
+				o.Q = rapid.SampledFrom([]string{"", "", "?q=1", "?", "?a=b&c=d"}).Draw(t, "ridquery")
 			}
 			ops = append(ops, o)
 		}
@@ -341,13 +344,18 @@ func TestPropServiceLevel(t *testing.T) {
 					s.ResetAll()
 				case "event":
 					done := make(chan interface{}, 1)
-					if err := s.With(o.RName, func(rr res.Resource) {
+					if err := s.With(o.RName+o.Q, func(rr res.Resource) {
 						defer func() { done <- recover() }()
 						script.ExecEvent(o.Ev, rr)
 					}); err != nil {
-						t.Fatalf("With(%q): %v", o.RName, err)
+						t.Fatalf("With(%q): %v", o.RName+o.Q, err)
 					}
 					<-done
+					for _, e := range conn.LogFrom(before) {
+						if e.Kind == "pub" && strings.HasPrefix(e.Subject, "event.") && !strings.HasPrefix(e.Subject, "event."+o.RName+".") {
+							t.Fatalf("an event emitted in With(%q) was published on %q, expected event.%s.<name>", o.RName+o.Q, e.Subject, o.RName)
+						}
+					}
 				}
 			}()
 			pubs := conn.LogFrom(before)
